@@ -204,6 +204,19 @@ func deadlockSignature(d1, d2 string) (string, []string) {
 	if s2 != "" {
 		return s2 + " (moving)", f2
 	}
+	// not parked anywhere: a goroutine that is still executing module code in both dumps never returns either
+	// (an endless loop is as fatal to block production as a deadlock)
+	busy := func(d string) []string {
+		for _, g := range strings.Split(d, "\n\n") {
+			if strings.Contains(g, repoFramePrefix+"module/x/") && strings.Contains(g, "hub.(*Node).guarded") {
+				return framesFromStack(g)
+			}
+		}
+		return nil
+	}
+	if b1, b2 := busy(d1), busy(d2); len(b1) > 0 && len(b2) > 0 {
+		return "still running inside the module when the watchdog fired (no return)", b2
+	}
 	return "call did not return within watchdog", nil
 }
 
